@@ -101,7 +101,7 @@ def run(tier, seed):
         cell = gl.cell_from_recip_metric(I["met"], c)
         smin, smax = gl.bounds(I["K"], I["Kmin"], c)
         mod = "tools" if (i % 2 or tier == "thorough") else "laue"
-        mods = ["tools", "laue"] if tier == "thorough" else [mod]
+        mods = ["tools", "laue"] if (tier == "thorough" or I.get("long")) else [mod]
         for m in mods:
             kw = dict(sgno=t["no"], cell_choice=t["setting"]) if rng.random() < 0.5 else dict(sgname=t["name_text"])
             for func, ostl in (("genhkl_unique", True), ("genhkl_unique", False), ("genhkl_all", True)):
